@@ -128,6 +128,14 @@ def make_cases(rng, tier):
                     bad.append({"program": jsonable(out), "problem": ["materializing a locked relation added a materialization"]})
             if out[0] == "xfer" and rout.engine is not w.engine(out[1]):
                 bad.append({"program": jsonable(out), "problem": ["transfer result is not in the requested engine"]})
+            if out[0] in ("xfer", "un", "item", "mat"):
+                # a transfer may only be undone across UNLOCKED markers, and no unary call rewrites what is below a lock:
+                # every locked node of the input is still there, as the identical object
+                kept = {id(x) for x in nodes(rout)}
+                lost = [x for x in locked_nodes(rin[0]) if id(x) not in kept]
+                if lost:
+                    bad.append({"program": jsonable(out),
+                                "problem": [f"locked {type(x).__name__} {x.name!r} of the input is gone from the result" for x in lost[:3]]})
             tin = clist([ctree(enc.dtree(r, w.reg)) for r in rin])
             nlocked = sum(len(locked_nodes(r)) for r in rin)
             cases.append({"json": {"call": jsonable(out)}, "coq": f"LKCase {tin} {ctree(enc.dtree(rout, w.reg))}",
